@@ -25,3 +25,47 @@ Fixpoint session_wire (f : framing) (v : N) (calls : list (path * N * call)) : l
           snd (transmit f tx uid r) ++ session_wire f v' rest
       end
   end.
+
+(* ------------------------------------------------------------------ execute_request with a peer and a transport *)
+(* What execute_request's receive loop sees, in order, while a request is in flight:
+   RxSkip   next_frame delivered a frame whose transaction id differs (`continue`: stale reply,
+            duplicate of an earlier reply, foreign frame) - bytes of a partial frame are not an
+            event at all (next_frame keeps waiting)
+   RxReply  a frame with the request's id (RTU: any frame): handle_response, the call is over
+   RxDeadline the response deadline fires first
+   RxFail   next_frame failed (I/O error, EOF, framing error): the error ends the session *)
+Inductive rx_event := RxSkip | RxReply | RxDeadline | RxFail.
+
+(* does the session end while this request waits? *)
+Fixpoint rx_loses_connection (evs : list rx_event) : bool :=
+  match evs with
+  | RxSkip :: rest => rx_loses_connection rest
+  | RxFail :: _ => true
+  | _ => false
+  end.
+
+(* how the transport takes the request's write_all: everything, or only the first k bytes before
+   `tokio::time::timeout(request.timeout, io.write(..))` expires (Io(TimedOut): a session error) *)
+Inductive tx_fate := TxAll | TxCut (k : nat).
+
+(* the byte stream of the connection: for each queued request `format_request(..)?`, ONE bounded
+   write BEFORE the receive loop, then the loop (which never writes) *)
+Fixpoint session_stream (f : framing) (v : N) (calls : list (path * N * call * tx_fate * list rx_event)) : list N :=
+  match calls with
+  | [] => []
+  | (p, uid, c, fate, evs) :: rest =>
+      match submit_via p c with
+      | Rejected _ => session_stream f v rest
+      | Queued r =>
+          let '(v', tx) := T.txid_next v in
+          match client_encode f tx uid r with
+          | Ok bs =>
+              let go := bs ++ (if rx_loses_connection evs then [] else session_stream f v' rest) in
+              match fate with
+              | TxAll => go
+              | TxCut k => if Nat.ltb k (length bs) then firstn k bs else go
+              end
+          | _ => session_stream f v' rest
+          end
+      end
+  end.
